@@ -28,6 +28,10 @@ pub enum Call {
     Next,
     NextBack,
     Len,
+    /// `size_hint()`: its bounds must enclose the number of elements not yet yielded (0 once exhausted)
+    SizeHint,
+    /// consume the rest through `Iterator::fold` (ends the history)
+    FoldRest,
 }
 
 #[derive(Clone, Debug, PartialEq, Serialize, Deserialize)]
@@ -157,6 +161,17 @@ pub fn gen_case(run_seed: u64, tier: Tier) -> IterCase {
             _ => *rng.pick(&[Call::Next, Call::Next, Call::Next, Call::NextBack, Call::Len]),
         })
         .collect();
+    let mut calls = calls;
+    if rng.chance(1, 3) {
+        let k = rng.usize_below(calls.len() + 1);
+        calls.insert(k, Call::SizeHint);
+    }
+    if rng.chance(1, 4) {
+        // cut the history somewhere and consume the rest by internal iteration
+        let k = rng.usize_below(calls.len() + 1);
+        calls.truncate(k);
+        calls.push(Call::FoldRest);
+    }
     IterCase { container, iter, calls }
 }
 
@@ -240,11 +255,12 @@ pub fn exec(case: &IterCase) -> RunOut {
         boxed_keep = Some(ds);
         boxed_keep.as_ref().unwrap().iter_box(kind)
     };
-    let Some(mut it) = it else {
+    let Some(it) = it else {
         out.count("iterator_kind_not_offered_by_type", 1);
         out.digest = 9;
         return out;
     };
+    let mut it_slot: Option<Box<dyn DynIter + '_>> = Some(it);
     let mut after_exhaustion_calls = 0u64;
     let mut exhausted = false;
     let mut front_met_back = false;
@@ -255,7 +271,45 @@ pub fn exec(case: &IterCase) -> RunOut {
         if exhausted {
             after_exhaustion_calls += 1;
         }
+        let Some(it) = it_slot.as_mut() else { break };
         match call {
+            Call::SizeHint => match catch(|| it.size_hint()) {
+                Ok((lo, hi)) => {
+                    let rem = model.len();
+                    if lo > rem || hi.map_or(false, |h| h < rem) {
+                        out.violate(
+                            sig("size_hint", "wrong_value", shape),
+                            format!("call #{k} size_hint() on {fam} over {n0} elements returned ({lo}, {hi:?}), {rem} elements are not yet yielded"),
+                        );
+                        break;
+                    }
+                }
+                Err(msg) => {
+                    out.violate(sig("size_hint", panic_kind(&msg), shape), format!("call #{k} size_hint() on {fam} over {n0} elements panicked: {msg}"));
+                    break;
+                }
+            },
+            Call::FoldRest => {
+                let boxed = it_slot.take().unwrap();
+                let rest: Vec<u128> = model.drain(..).collect();
+                match catch(|| boxed.fold_rest()) {
+                    Ok(g) => {
+                        for x in &g {
+                            digest.u128(*x);
+                        }
+                        if g != rest {
+                            let first = g.iter().zip(&rest).position(|(a, b)| a != b).unwrap_or(g.len().min(rest.len()));
+                            out.violate(
+                                sig("fold", "wrong_value", shape),
+                                format!("call #{k} fold() over the rest of {fam} ({n0} elements, {} already yielded) produced {} elements, first difference at offset {first}; {} elements were left", n0 - rest.len(), g.len(), rest.len()),
+                            );
+                        }
+                    }
+                    Err(msg) => out.violate(sig("fold", panic_kind(&msg), shape), format!("call #{k} fold() over the rest of {fam} panicked: {msg}")),
+                }
+                out.count("probe.rest_consumed_by_fold", 1);
+                break;
+            }
             Call::Next => {
                 let e = model.pop_front();
                 used_front = true;
@@ -330,7 +384,7 @@ pub fn exec(case: &IterCase) -> RunOut {
             front_met_back = true;
         }
     }
-    drop(it);
+    drop(it_slot);
     if front_met_back {
         out.count("probe.front_met_back", 1);
     }
